@@ -47,7 +47,8 @@ def style_family(ctx, rng):
 
 
 def run(ctx, rep):
-    rep.rule = ("ordered pairs / random sequences of complete git file sections of every kind, each ending in any line kind, "
+    rep.rule = ("ordered pairs / random sequences of complete git file sections of every kind (and a submodule log of "
+                "diff.submodule=log after and before every kind), each ending in any line kind, "
                 "under random unified-view configurations: delta(A++B) must equal delta(A)++delta(B), and repeated runs must be "
                 "byte-identical; non-trivial = >= 2 sections of different kinds; distinct by (config, input). Style family: "
                 "raw / omit x decorations (and color-only) for the file, hunk-header and commit styles, over sequences that start "
@@ -60,6 +61,14 @@ def run(ctx, rep):
         for b in kinds:
             for e in (ENDINGS if not ctx.quick() else [rng.choice(ENDINGS)]):
                 seqs.append([(a, e), (b, rng.choice(ENDINGS))])
+    # a submodule log (`git diff --submodule=log`) after / before every kind of section: the sections whose file header is
+    # written late (mode-only change, empty added file, binary file) must get it before the log's header, as they do at the
+    # end of the input (before the repair of handle_submodule_log_line delta(A ++ log) was not delta(A) ++ delta(log))
+    for a in kinds + M.EXTRA_FILE_KINDS:
+        seqs.append([(a, rng.choice(ENDINGS)), ("submodule_log", None)])
+        seqs.append([("submodule_log", None), (a, rng.choice(ENDINGS))])
+        if a in M.LATE_HEADER_KINDS:
+            seqs.append([(rng.choice(kinds), rng.choice(ENDINGS)), (a, None), ("submodule_log", None), (rng.choice(kinds), rng.choice(ENDINGS))])
     for _ in range(ctx.n(60, 3000)):
         seqs.append([(rng.choice(kinds), rng.choice(ENDINGS)) for _ in range(rng.randint(2, 5))])
     cases, meta = [], []
